@@ -321,7 +321,11 @@ func zz4CheckAnnotations(log []zz4E, got []*AnnotationEntry, want []int, label s
 }
 
 func zz4Shape(tampered bool) (int, int, int, int) {
-	n := verif.Concrete(verif.IntRange("n", 1, verif.Bound("entries", 3, 4)))
+	maxN := verif.Bound("entries", 3, 4)
+	if tampered {
+		maxN = 3 // the tampered variants keep the 3-entry logs in both tiers
+	}
+	n := verif.Concrete(verif.IntRange("n", 1, maxN))
 	legacy := 0
 	if verif.Bound("legacy", 0, 1) == 1 {
 		legacy = verif.Concrete(verif.IntRange("legacy", 0, n))
